@@ -123,6 +123,7 @@ func ruleLK1(c *Ctx) {
 	}
 	busyOK := false
 	for _, bf := range branchFacts(lp) {
+		curEnv = bf.A.Env
 		if bf.A.Kind != "bool" || !bf.Holds {
 			continue
 		}
@@ -192,6 +193,7 @@ func ruleLK1(c *Ctx) {
 	recreated, reopen := false, false
 	var why []string
 	for _, bf := range branchFacts(lp) {
+		curEnv = bf.A.Env
 		if bf.A.Kind != "bool" || !bf.Holds {
 			continue
 		}
